@@ -15,7 +15,7 @@ VARIABLE k
 Init == k = 0
 Next == k < Len(Cases) /\ k' = k + 1
 Want(c) == Res(Norm(c.parent), c.o)
-CaseOK(c) == LET w == Want(c) IN
+CaseOK(c) == Unspecified(c.o) \/ LET w == Want(c) IN
   /\ ~c.panic
   /\ c.r.ok = w.ok /\ c.r.new = w.new /\ c.r.val = w.val /\ c.r.n = w.n
   /\ Norm(c.r.seq) = w.seq
